@@ -13,7 +13,7 @@ PID = "C20"
 
 def _shard(shard, n, tier, seed):
     env = dict(os.environ); env["RUST_BACKTRACE"] = "0"
-    trees, rust, corr = (1200, 800, 6) if tier == "quick" else (30000, 20000, 12)
+    trees, rust, corr = (1200, 800, 6) if tier == "quick" else (250000, 150000, 12)
     p = subprocess.run([binary(), "serde", str(seed * 1000 + shard + 1), str(trees), str(rust), str(corr)], stdout=subprocess.PIPE, stderr=subprocess.PIPE, env=env, timeout=6000)
     if p.returncode != 0:
         return {"died": True, "detail": "exit %s: %s" % (p.returncode, p.stderr.decode("utf-8", "replace")[-400:])}
